@@ -27,7 +27,15 @@ ASSUMPTIONS = [
     "a worker process that dies (segfault) is reported as a violation of the case it was executing",
 ]
 
-VARIANTS = ["native", "swapped", "strided", "negstride", "swapped-strided", "swapped-negstride", "f4", "i8", "0d", "2d", "readonly"]
+VARIANTS = ["native", "swapped", "strided", "negstride", "swapped-strided", "swapped-negstride", "f4", "i8", "0d", "2d", "readonly",
+            # ndarray subclasses (np.asarray() of these is a NEW base-class view of the caller's memory, so "is it my own
+            # copy?" tests by identity go wrong) and tables whose fields differ in byte order
+            "subclass", "masked", "memmap", "memmap-column", "mixed-order"]
+_MM = {"n": 0, "dir": None}
+
+
+class _Sub(np.ndarray):
+    pass
 
 
 def make_variant(a, variant):
@@ -88,10 +96,45 @@ def make_variant(a, variant):
         r = a.copy()
         r.flags.writeable = False
         return r
+    if variant == "subclass":
+        return a.copy().view(_Sub)
+    if variant == "masked":
+        if a.dtype.names is not None:
+            return None
+        return np.ma.MaskedArray(a.copy())
+    if variant in ("memmap", "memmap-column"):
+        if a.ndim != 1 or a.size == 0 or _MM["dir"] is None:
+            return None
+        _MM["n"] += 1
+        fn = os.path.join(_MM["dir"], "c15_mm_%d_%d.bin" % (os.getpid(), _MM["n"] % 4))
+        if variant == "memmap":
+            mm = np.memmap(fn, dtype=a.dtype, mode="w+", shape=a.shape)
+            mm[...] = a
+            return mm
+        if a.dtype.names is not None:
+            return None
+        mm = np.memmap(fn, dtype=[("pad", "u1", (3,)), ("col", a.dtype), ("tail", "S2")], mode="w+", shape=a.shape)
+        mm["pad"] = 0xA5
+        mm["col"] = a
+        return mm["col"]
+    if variant == "mixed-order":
+        if a.dtype.names is None:
+            return None
+        multi = [n for n in a.dtype.names if a.dtype[n].base.itemsize > 1 and a.dtype[n].base.kind in "iufc"]
+        if len(multi) < 2:
+            return None
+        descr = []
+        for d in a.dtype.descr:
+            if d[0] == multi[0]:
+                d = (d[0], np.dtype(d[1]).newbyteorder("S").str) + tuple(d[2:])
+            descr.append(d)
+        return a.astype(np.dtype(descr))
     raise ValueError(variant)
 
 
 def snapshot(a):
+    if isinstance(a, np.ma.MaskedArray):
+        return ("masked", snapshot(np.asarray(a.data)), np.ma.getmaskarray(a).tobytes())
     base = a
     while isinstance(base, np.ndarray) and base.base is not None and isinstance(base.base, np.ndarray):
         base = base.base
@@ -484,6 +527,7 @@ def main(ctx):
         if "d" not in tmpd or tmpd.get("owner") is not rec:
             tmpd["d"] = rec.tmp
             tmpd["owner"] = rec
+        _MM["dir"] = rec.tmp
         arrays, fn = SPECS[sname]
         args = {}
         for k, base in arrays.items():
